@@ -84,6 +84,16 @@ def pt(t) -> dict:
     return {"k": "ty", "s": repr(t)}
 
 
+def pa(t) -> dict:
+    """Project an argument of an operation term: lists keep their structure, literals are printed, everything else as pt."""
+    cls = type(t).__name__
+    if cls == "List":
+        return {"k": "list", "parts": [pa(x) for x in rd(t, "parts")]}
+    if cls == "Literal":
+        return {"k": "lit", "s": str(rd(t, "value")) if isinstance(rd(t, "value"), int) else repr(rd(t, "value"))}
+    return pt(t)
+
+
 def node_rows(nd: dict) -> dict:
     """The row-valued fields of one wire node, every type decoded and translated to a term ON ITS OWN (no signature is composed here)."""
     from ..wire import dec_type
@@ -140,6 +150,15 @@ def proj_node(n) -> dict:
                 callee = rd(args[2], "symbol")
             elif s == "core.load_const" and len(args) == 2 and type(args[1]).__name__ == "Apply":
                 callee = rd(args[1], "symbol")
+    opsym, opargs, ncalleeargs = "", [], -1
+    if cls == "CustomOp":
+        t = rd(op, "operation")
+        if type(t).__name__ == "Apply":
+            opsym, args = rd(t, "symbol"), list(rd(t, "args"))
+            opargs = [pa(a) for a in args]
+            f = args[2] if opsym == "core.call" and len(args) == 3 else args[1] if opsym == "core.load_const" and len(args) == 2 else None
+            if f is not None and type(f).__name__ == "Apply":
+                ncalleeargs = len(rd(f, "args"))
     nparams, nonlinear, constterm = 0, [], ""
     if cls in ("DefineFunc", "DeclareFunc"):
         symb = rd(op, "symbol")
@@ -172,7 +191,7 @@ def proj_node(n) -> dict:
                     vj = f"<not json: {lit(a[1])!r}>"
                 metakeys.append(f"{lit(a[0])}={vj}")
     symsig = pt(rd(rd(op, "symbol"), "signature")) if cls in ("DefineFunc", "DeclareFunc") else {"k": "ty", "s": ""}
-    return {"sig": pt(rd(n, "signature")), "symsig": symsig, "op": cls, "sym": sym, "callee": callee, "inputs": list(rd(n, "inputs")), "outputs": list(rd(n, "outputs")),
+    return {"sig": pt(rd(n, "signature")), "symsig": symsig, "opsym": opsym, "opargs": opargs, "ncalleeargs": ncalleeargs, "op": cls, "sym": sym, "callee": callee, "inputs": list(rd(n, "inputs")), "outputs": list(rd(n, "outputs")),
             "regions": [proj_region(r) for r in rd(n, "regions")], "key": key, "metakeys": metakeys, "nparams": nparams, "nonlinear": nonlinear, "constterm": constterm}
 
 
@@ -279,6 +298,23 @@ def run(ctx: Ctx) -> None:
                 if p["name"].startswith("gen:"):
                     case["generator_seed"] = int(p["name"][4:])
                 ctx.violation({"check": "+".join(sorted(f))}, case, "ExportFaithful", sorted(f), clause="ModelExport!" + sorted(f)[0], leg="C2S")
+        # coverage of the operation-term law: how many exported nodes of each custom operation the judged pairs contain
+        from collections import Counter
+        seen = Counter()
+        def walk(r):
+            for c in r["children"]:
+                if c["opsym"].startswith("core."):
+                    seen[c["opsym"] + ("/poly" if c["ncalleeargs"] > 0 else "")] += 1
+                if c["op"] == "Block":
+                    seen["Block/%d-successors" % min(len(c["outputs"]), 2)] += 1
+                for rr in c["regions"]:
+                    walk(rr)
+        for p in pairs:
+            walk(p["exp"])
+        ctx.note("exported_operation_terms", dict(seen))
+        for need in ("core.call", "core.call/poly", "core.load_const", "core.make_adt", "Block/2-successors"):
+            if not seen[need]:
+                raise MachineryError(f"vacuity: no exported {need} among the judged programs")
         if pairs:
             ctx.sample({"name": pairs[0]["name"], "nodes": len(pairs[0]["nodes"]), "exported_top_level": [c["op"] + ":" + c["sym"] for c in pairs[0]["exp"]["children"]]})
         # vacuity guard: corrupted exports must be rejected on the expected clause
@@ -312,6 +348,13 @@ def run(ctx: Ctx) -> None:
             if t4["regions"][0]["sig"].get("k") == "fn":
                 t4["regions"][0]["sig"]["ins"] = t4["regions"][0]["sig"]["ins"] + [{"k": "ty", "s": "bogus"}]
                 neg.append(q4)
+            q5 = copy.deepcopy(p)       # an operation term whose first argument lost an element
+            q5["name"] = p["name"] + "|op-term|RegionsMirrorHierarchy/PortsAreValuePorts/MetadataCarried/SymbolParams/ConstInlined/Signatures"
+            t5 = next(c for c in q5["exp"]["children"] if c["op"] == "DefineFunc" and c["regions"] and c["regions"][0]["children"])
+            c5 = next((c for c in t5["regions"][0]["children"] if c["opsym"] in ("core.call", "core.make_adt", "core.call_indirect")), None)
+            if c5 is not None:
+                c5["opargs"][0]["parts"] = c5["opargs"][0]["parts"] + [{"k": "ty", "s": "bogus"}]
+                neg.append(q5)
             q2 = copy.deepcopy(p)
             q2["name"] = p["name"] + "|rename-link|LinkPartition"
             t2 = next(c for c in q2["exp"]["children"] if c["op"] == "DefineFunc" and c["regions"] and c["regions"][0]["children"])
